@@ -111,6 +111,21 @@ def r_last_output_order(ctx):
                               f"key-sorted order so the last publication is {last!r}; completion would be inferred at the wrong moment")
             else:
                 ctx.ok(rid, loc(fi), f"schema {keys}: output {k!r} last={got}")
+    # two jobs in one controller process that reuse a task name: no stale answer may survive
+    T = Atom("T")
+    mk = lambda keys: Obj("cascade.low.core.JobInstance", {"tasks": {T: Obj("cascade.low.core.TaskInstance", {
+        "definition": Obj("cascade.low.core.TaskDefinition", {"output_schema": {k: "Any" for k in keys}})})}})
+    p1 = ip.explore(fi, args={"dataset": Atom("T.0", cls=DSQ, task=T, output="0"), "job": mk(["0"])})
+    if len(p1) == 1 and p1[0].exit[0] == "return":
+        env2 = {k: v for k, v in p1[0].heap.items() if k.startswith("cascade.")}
+        p2 = ip.explore(fi, env=env2, args={"dataset": Atom("T.0", cls=DSQ, task=T, output="0"), "job": mk(["0", "1"])})
+        got = [p.exit[1] for p in p2 if p.exit[0] == "return"]
+        if got != [False]:
+            ctx.violation(rid, fi.qual, loc(fi), "last output per job",
+                          f"job 1 declares task T with output ['0'], job 2 (same process) declares T with outputs ['0','1']: for job 2, is_last_output_of(T.0) = {vkey(got)} "
+                          f"(must be False: an answer remembered from another job infers completion too early)")
+        else:
+            ctx.ok(rid, loc(fi), "no answer is carried over between jobs that reuse a task name")
     # the runner side of the contract: outputs are key-sorted before publication
     run = repo.func("cascade.executor.runner.runner.run")
     sorts = [n for n in walk_scope(run.node) if isinstance(n, ast.Call) and (
